@@ -398,6 +398,92 @@ def check_consistent(spec, method, P, sol):
     return None
 
 
+# ----------------------------------------------------------------------------- LP objectives with hidden constants
+
+LP_ROOT_FORMS = ["c@(x+d)", "c@(x+arr)", "c@(k*x-arr)", "(x+d).sum()", "x.sum()+d", "c@x+d", "c@(x-arr)+d", "(2*x-arr).sum()",
+                 "c@(arr-x)"]
+LP_ALL_METHODS = ["auto", "linprog", "highs", "highs-ds", "highs-ipm"]
+
+
+def lp_root_case(form, sense, method, data):
+    """a linear objective whose constant term hides inside the *elements* of a vector expression under a
+    LinearCombination / VectorSum / sum root; -> (problem, offset the optimum must include)"""
+    from optyx import Problem, VectorVariable
+
+    n = len(data["c"])
+    x = VectorVariable("x", n, lb=data["lb"], ub=data["ub"])
+    c, arr, d, k = np.array(data["c"]), np.array(data["arr"]), data["d"], data["k"]
+    obj = {"c@(x+d)": lambda: c @ (x + d),
+           "c@(x+arr)": lambda: c @ (x + arr),
+           "c@(k*x-arr)": lambda: c @ (k * x - arr),
+           "(x+d).sum()": lambda: (x + d).sum(),
+           "x.sum()+d": lambda: x.sum() + d,
+           "c@x+d": lambda: c @ x + d,
+           "c@(x-arr)+d": lambda: c @ (x - arr) + d,
+           "(2*x-arr).sum()": lambda: (2.0 * x - arr).sum(),
+           "c@(arr-x)": lambda: c @ (arr - x)}[form]()
+    P = Problem()
+    P.minimize(obj) if sense == "min" else P.maximize(obj)
+    P.subject_to(x.sum() <= data["cap"])
+    return P
+
+
+def lp_root_check(case):
+    P = lp_root_case(case["form"], case["sense"], case["method"], case["data"])
+    with warnings.catch_warnings():
+        warnings.simplefilter("ignore")
+        try:
+            sol = P.solve(method=case["method"])
+        except Exception as e:  # noqa: BLE001
+            # e.g. NonLinearError: sums of vector expressions are conservatively classified non-linear
+            # (C04 allows over-reporting); a refusal to solve is not an inconsistent answer
+            return None, "raise:" + type(e).__name__
+    if not sol.values or sol.objective_value is None:
+        return None, sol.status.name
+    want = float(P.objective.evaluate(sol.values))
+    # independent value of the same affine function
+    d = case["data"]
+    xs = [sol.values[f"x[{i}]"] for i in range(len(d["c"]))]
+    c, arr, dd, k = d["c"], d["arr"], d["d"], d["k"]
+    ind = {"c@(x+d)": sum(ci * (xi + dd) for ci, xi in zip(c, xs)),
+           "c@(x+arr)": sum(ci * (xi + ai) for ci, xi, ai in zip(c, xs, arr)),
+           "c@(k*x-arr)": sum(ci * (k * xi - ai) for ci, xi, ai in zip(c, xs, arr)),
+           "(x+d).sum()": sum(xi + dd for xi in xs),
+           "x.sum()+d": sum(xs) + dd,
+           "c@x+d": sum(ci * xi for ci, xi in zip(c, xs)) + dd,
+           "c@(x-arr)+d": sum(ci * (xi - ai) for ci, xi, ai in zip(c, xs, arr)) + dd,
+           "(2*x-arr).sum()": sum(2 * xi - ai for xi, ai in zip(xs, arr)),
+           "c@(arr-x)": sum(ci * (ai - xi) for ci, xi, ai in zip(c, xs, arr))}[case["form"]]
+    scale = 1.0 + abs(want) + sum(abs(ci) * (abs(xi) + abs(ai) + abs(dd)) for ci, xi, ai in zip(c, xs, arr))
+    if abs(want - sol.objective_value) > 1e-8 * scale or abs(ind - sol.objective_value) > 1e-8 * scale:
+        return {"what": "objective_value differs from the objective evaluated at the reported values",
+                "objective_value": sol.objective_value, "objective_at_values": want, "independent": ind,
+                "values": dict(sol.values)}, sol.status.name
+    return None, sol.status.name
+
+
+def run_lp_root_forms(rep, rng, thorough):
+    for form in LP_ROOT_FORMS:
+        for sense in ("min", "max"):
+            for method in LP_ALL_METHODS:
+                for rep_i in range(3 if thorough else 1):
+                    n = rng.randint(2, 4)
+                    data = {"c": [rng.choice([1.0, 2.0, -1.0, 0.5, 3.0, -2.0]) for _ in range(n)],
+                            "arr": [rng.choice([1.0, -2.0, 0.5, 4.0, -0.25]) for _ in range(n)],
+                            "d": rng.choice([1.0, -3.0, 0.5, 2.5]), "k": rng.choice([2.0, -1.0, 0.5]),
+                            "lb": rng.choice([0.0, -1.0]), "ub": rng.choice([2.0, 3.0]), "cap": rng.choice([2.0, 3.5, 5.0])}
+                    case = {"form": form, "sense": sense, "method": method, "data": data}
+                    bad, status = lp_root_check(case)
+                    rep.evaluations += 1
+                    tag = f"lp-root:{form}:{status}"
+                    rep.histogram[tag] = rep.histogram.get(tag, 0) + 1
+                    if status == "OPTIMAL":
+                        rep.nontrivial.add(hash(("lproot", form, sense, method, str(data))))
+                    if bad is not None:
+                        bad.update({"kind_of_case": "lp-root", "case": case})
+                        rep.oracle_failures.append(bad)
+
+
 def vector_matrix_solves(rep, rng, n):
     """real solves of problems written with vector / matrix handles; look-ups through views"""
     from optyx import MatrixVariable, Problem, VectorVariable
@@ -468,6 +554,7 @@ def run(ctx) -> core.Report:
     handle_cases(rep, recs)
     getitem_cases(rep, rng, recs)
     rep.exhaustive = True
+    run_lp_root_forms(rep, rng, thorough)
     base.run_real_solves(rep, rng, 1500 if thorough else 120, check_consistent)
     vector_matrix_solves(rep, rng, 300 if thorough else 30)
     for meta, P, text, info in metas[:4000:997]:
@@ -481,6 +568,9 @@ def search(ctx, rep):
     metas = base.run_stub_table(r2, rng, True)
     stub_consistency(r2, metas)
     stub_consistency(r2, run_lp_contract_table(r2))
+    if r2.oracle_failures:
+        return r2.oracle_failures[0]
+    run_lp_root_forms(r2, rng, True)
     if r2.oracle_failures:
         return r2.oracle_failures[0]
     getitem_cases(r2, rng, recipes(rng, thorough=True))
@@ -530,6 +620,10 @@ def replay(payload) -> bool:
         print(got)
         els = handle_elements(h)
         return list(np.asarray(got, dtype=float).ravel()) == [f["values"][v.name] for v in els]
+    if kind == "lp-root":
+        bad, status = lp_root_check(f["case"])
+        print("status:", status, bad)
+        return bad is None
     if kind == "vm":
         rep = core.Report()
         vector_matrix_solves(rep, core.Rng(payload.get("seed", 0)), f["seed_index"] + 1)
